@@ -140,6 +140,13 @@ def c09_check(S, exp, out_ids, result):
             r_start = first.get(("rd", S.store_name[d]))
             if pe is None or r_start is None or r_start < pe:
                 return f"out-of-date dependent source n{d} was read (seq {r_start}) before its producer n{p} finished (seq {pe})", 0, 0
+            # ... and after every other call it depends on in this run (explicit add_dependency edges included)
+            for u in S.eff_anc(exp, d):
+                if ir.nodes[u].kind == "call" and u in exp.execs:
+                    ue = last.get(("end", u))
+                    if ue is None or r_start < ue:
+                        return (f"out-of-date dependent source n{d} was read (seq {r_start}) before n{u}, which it depends on and which executes in this run, "
+                                f"had finished (seq {ue})"), 0, 0
     # an out-of-date alias source (shares the store of a rebuilt node, ordered after it by a dependency) is read after that write
     for a, tgt in rp.alias_of.items():
         if exp.ood[a] and a in exp.reads and tgt in exp.writes:
